@@ -9,6 +9,7 @@ import (
 	"path/filepath"
 	"sort"
 	"strings"
+	"sync"
 	"time"
 )
 
@@ -210,7 +211,25 @@ func dischargeSet(e *enc, dir string, idx int, timeoutMs int, obls []*Obl, retry
 			retry = append(retry, o)
 		}
 	}
+	var rwg sync.WaitGroup
+	rsem := make(chan bool, 4)
 	for k, o := range retry {
+		k, o := k, o
+		rwg.Add(1)
+		rsem <- true
+		go func() {
+			defer func() { <-rsem; rwg.Done() }()
+			retryOne(e, o, dir, idx, k, timeoutMs, cfgs)
+		}()
+	}
+	rwg.Wait()
+	if !keepSMT {
+		os.Remove(fn)
+	}
+}
+
+func retryOne(e *enc, o *Obl, dir string, idx, k, timeoutMs int, cfgs []SolverCfg) {
+	{
 		single := filepath.Join(dir, fmt.Sprintf("f%04d_o%d.smt2", idx, k))
 		os.WriteFile(single, []byte(e.singleQuery(o, false)), 0644)
 		type ans struct {
@@ -248,9 +267,6 @@ func dischargeSet(e *enc, dir string, idx int, timeoutMs int, obls []*Obl, retry
 			os.Remove(single)
 		}
 	}
-	if !keepSMT {
-		os.Remove(fn)
-	}
 }
 
 func (e *enc) singleQuery(o *Obl, model bool) string {
@@ -267,7 +283,20 @@ func fetchModel(e *enc, o *Obl, dir string, timeoutMs int) string {
 	os.WriteFile(single, []byte(e.singleQuery(o, true)), 0644)
 	defer os.Remove(single)
 	var all strings.Builder
-	for _, cfg := range solverCfgs(timeoutMs, e.strTheory) {
+	cfgs := solverCfgs(timeoutMs, e.strTheory)
+	if o.Result == "sat" {
+		// ask the solver that refuted it first
+		for i, cfg := range cfgs {
+			if cfg.Name == o.Solver {
+				cfgs[0], cfgs[i] = cfgs[i], cfgs[0]
+			}
+		}
+	} else {
+		// nobody decided it within the time-out: there is no model to fetch; report the reason once
+		all.WriteString(fmt.Sprintf("; undecided within %d ms by z3-new, z3 and cvc5 (%s)\n", timeoutMs, o.Result))
+		cfgs = solverCfgs(2000, e.strTheory)[:1]
+	}
+	for _, cfg := range cfgs {
 		out, _ := runSolver(cfg, single, time.Duration(timeoutMs+3000)*time.Millisecond)
 		r, _ := parseResults(out, 1)
 		all.WriteString(fmt.Sprintf("; %s: %s\n", cfg.Name, r[0]))
